@@ -55,3 +55,44 @@ fn expression_depth() {
     let src = format!("return {}1{}", "(".repeat(150), ")".repeat(150));
     both(&src, "=> 1");
 }
+
+fn loud(src: &str, names: &[&str]) -> String {
+    let parsed = parse(src, Mode::Luau).unwrap();
+    let cfg = Config { dialect: Dialect::Luau, ..Config::default() };
+    let names: Vec<String> = names.iter().map(|s| s.to_string()).collect();
+    show(&run_with_loud_globals_isolated(&parsed.block, &cfg, &names))
+}
+
+#[test]
+fn loud_values_report_every_metamethod() {
+    assert_eq!(
+        loud("local _ = a + 1, 1 - a, a * a, a / 2, a % 2, a ^ 2, a // 2, -a, a .. 'x', #a", &["a"]),
+        "meta:__add() meta:__sub() meta:__mul() meta:__div() meta:__mod() meta:__pow() meta:__idiv() meta:__unm() meta:__concat() meta:__len() =>"
+    );
+    assert_eq!(
+        loud("local _ = a == b, a ~= b, a < b, a <= b, a > 1, 1 >= a, a == a, a == 1, a == nil", &["a", "b"]),
+        "meta:__eq() meta:__eq() meta:__lt() meta:__le() meta:__lt() meta:__le() =>"
+    );
+    assert_eq!(loud("local _ = a.x, a[1] a.y = 1 a() a:m() local s = tostring(a) .. `{a}`", &["a"]),
+        "meta:__index() meta:__index() meta:__newindex() meta:__call() meta:__index() meta:__call() meta:__tostring() meta:__tostring() =>");
+    // things that must stay silent
+    assert_eq!(loud("local x = a local y = a and b or nil local t = {a, k = b} local z = not a local w = rawequal(a, b) local v = type(a) return a == a, rawget(a, 'x')", &["a", "b"]), "=> true,nil");
+    // results chain: the result of a loud operation is loud again
+    assert_eq!(loud("local _ = (a + 1).x.y", &["a"]), "meta:__add() meta:__index() meta:__index() =>");
+    assert_eq!(loud("return b", &["a"]), "=> nil");
+    assert_eq!(loud("for k, v in a do break end", &["a"]), "meta:__call() =>");
+}
+
+#[test]
+fn misc_runtime_rules() {
+    both("emit(pcall(function() for i = 1, 10, 0 do end end))", "emit(false,\"<runtime error>\") =>");
+    both("local t = setmetatable({}, {__index = function(t, k) return k * 2 end}) emit(t[21], #t)", "emit(42,0) =>");
+    both("local a = {} local b = a a.x = 1 emit(b.x, a == b, {} == {})", "emit(1,true,false) =>");
+    both("local function f(t) t.x = 2 end local t = {x = 1} f(t) emit(t.x)", "emit(2) =>");
+    both("local s = 'abc' local u = s emit(s == u, s == 'ab' .. 'c', #s)", "emit(true,true,3) =>");
+    both("emit(10 == '10', 0 == false, nil == false, '' == 0)", "emit(false,false,false,false) =>");
+    both("local t = {} t[1] = 1 t[2] = 2 t[4] = 4 emit(t[3], t[4])", "emit(nil,4) =>");
+    both("emit(1 < 2, 2 < 1, 1 <= 1, 1 >= 2, 0/0 < 1, 0/0 >= 1, 'a' ~= 'a')", "emit(true,false,true,false,false,false,false) =>");
+    both("emit(2^53 + 1 == 2^53, 0.1 + 0.2 == 0.3, 1e308 * 10, -1e308 * 10, 2^-1074 > 0, 2^-1075 == 0)", "emit(true,false,inf,-inf,true,true) =>");
+    both("emit(math.floor(-0.5), math.ceil(-0.5), 3 % -0, 0 * -1 == 0)", "emit(-1,-0,nan,true) =>");
+}
